@@ -1,6 +1,8 @@
 import GeoVerif.Model.ClientParse
 import GeoVerif.Lemmas.C10
 import GeoVerif.Lemmas.RoundTrip
+import GeoVerif.Lemmas.Ambiguity
+import GeoVerif.Generated.Labels
 
 /-!
 # C10 — the client returns exactly what the report says
@@ -101,5 +103,19 @@ theorem client_reads_examples :
     parseNumber (fmtF 2 (1234565 / 1000)) = .dec false "1234".toList "56".toList
     ∧ parseNumber (fmtF 2 (-51 / 100)) = .dec true "0".toList "51".toList
     ∧ parseNumber (fmtF 0 7) = .int false "7".toList := by decide +kernel
+
+/-! ## never a value taken from another line — for every report line of the standard shape, by tables regenerated from the writers and the client -/
+
+/-- kernel-decided over the regenerated tables: every client field name is non-empty without a leading blank; every label the writers
+can print (static labels from the AST of `Outputs*.py`, display names and names of all parameters) has no leading blank, and nothing a
+marker could pick up from its line besides the label itself — what follows a run of four blanks, what precedes an inner `": "` — is a client field -/
+theorem labels_safe : labelsSafe GeoVerif.Generated.clientFieldChars GeoVerif.Generated.writerLabelChars = true := by decide +kernel
+
+/-- hence: for every client field `a`, every writer label `b`, any indentation and any colon-free figure text, the client's marker for `a`
+matches the line `<blanks>b: <figure>` only if `a` is `b` — a field can never be filled from a line that carries another label -/
+theorem field_never_from_another_label (a b : List Char) (ha : a ∈ GeoVerif.Generated.clientFieldChars) (hb : b ∈ GeoVerif.Generated.writerLabelChars)
+    (sp rest : List Char) (hsp : AllSp sp) (hrest : ∀ c ∈ rest, c ≠ ':')
+    (hm : isInfix (marker 4 a) (sp ++ b ++ ':' :: ' ' :: rest) = true) : a = b :=
+  unambiguous_of_labelsSafe _ _ labels_safe a b ha hb sp rest hsp hrest hm
 
 end GeoVerif.C10
